@@ -179,7 +179,8 @@ class Rig:
     def __init__(self, case):
         import canopen
         a, b, x = case["ids"]
-        self.ids = {"A": a, "B": b, "none": x, "all": 0}
+        # Ahi / hi0 / hiF: node-id bytes above 127 - no node has such an id, the frames concern nobody
+        self.ids = {"A": a, "B": b, "none": x, "all": 0, "Ahi": a | 0x80, "hi0": 0x80, "hiF": 0xFF}
         self.hub = Hub()
         self.hub.modifiable_tasks = bool(case.get("mod", True))
         self.mnet, self.mport = self.hub.attach("master")
@@ -769,6 +770,9 @@ def enum_wait(thorough):
     for feed in neg:
         yield _base("wait", "preop", [W("boot", feed)])
     yield _base("wait", "init", [W("boot", [])])
+    for to in ("Ahi", "hi0", "hiF"):
+        for cs in (1, 2, 128, 129, 130):
+            yield _base("seq", "preop", [{"op": "raw", "cs": cs, "to": to}, {"op": "raw", "cs": 1, "to": "A"}])
     for who, other in (("A", "B"), ("B", "A")):
         for cs in (1, 2, 128):
             yield _base("seq", "preop", [{"op": "replace", "to": who}, {"op": "cmd", "cs": cs, "to": other},
@@ -803,7 +807,7 @@ def _name():
 
 
 def _op():
-    t4 = st.sampled_from(["A", "A", "all", "B", "none"])
+    t4 = st.sampled_from(["A", "A", "all", "B", "none", "A", "all", "B", "none", "Ahi", "hi0", "hiF"])
     t3 = st.sampled_from(["A", "A", "all", "B"])
     t2 = st.sampled_from(["A", "A", "B"])
     byte = st.one_of(st.sampled_from([0, 4, 5, 127, 80, 96, 0x80, 0x84, 0x85, 0xFF]), st.integers(0, 255))
